@@ -7,7 +7,6 @@ import (
 	"fmt"
 	"os"
 	"path/filepath"
-	"regexp"
 	"sort"
 	"strings"
 	"sync"
@@ -200,16 +199,21 @@ func checkInput(kind string, in []byte) c37Result {
 	return res
 }
 
-var frameRe = regexp.MustCompile(`(?m)^((?:github\.com/gotd/td|github\.com/yuin/goldmark|golang\.org/x/net/html)[^\s(]*)\(`)
-
-// panicSite: the innermost library frame of a captured panic stack (stable signature component).
+// panicSite: the innermost library frame of a captured panic stack (stable signature component),
+// e.g. "html.(*stack).pop".
 func panicSite(stack string) string {
-	if m := frameRe.FindStringSubmatch(stack); m != nil {
-		s := m[1]
-		if i := strings.LastIndex(s, "/"); i >= 0 {
-			s = s[i+1:]
+	for _, line := range strings.Split(stack, "\n") {
+		line = strings.TrimSpace(line)
+		if !strings.HasPrefix(line, "github.com/gotd/td/") && !strings.HasPrefix(line, "github.com/yuin/goldmark") && !strings.HasPrefix(line, "golang.org/x/net/html") {
+			continue
 		}
-		return s
+		if i := strings.LastIndex(line, "("); i > 0 {
+			line = line[:i]
+		}
+		if i := strings.LastIndex(line, "/"); i >= 0 {
+			line = line[i+1:]
+		}
+		return line
 	}
 	return "unknown-frame"
 }
@@ -495,7 +499,7 @@ func runC37(c *mon.Ctx) {
 	}()
 
 	// (2)..(5) generated inputs
-	n := c.N(100000, 10000000)
+	n := c.N(100000, 4000000)
 	for i := 0; i < 4; i++ {
 		class, kind, in := genC37Input(c.RandN("c37", i), i)
 		c.Sample(class, map[string]any{"parser": kind, "input": fmt.Sprintf("%+q", clip(string(in), 300))})
